@@ -165,14 +165,52 @@ def enclosing_fn(text_lines, ln):
     return "?"
 
 
-def run_unit(unit_name, tier="quick", repo=None, workdir=None, rlimit_factor=1):
+def _augment_template(tpath, repo, names, sources):
+    """Auto-closure: the extracted code calls helpers that the template does not list (e.g. a refactoring outlined a new
+    function). Returns template text with `//@extract` entries for them (verbatim, no contract: verified for safety,
+    callers learn nothing about their result), or None if a name cannot be found."""
+    from . import rustlex
+    text = open(tpath, encoding="utf-8").read()
+    add = []
+    for name in names:
+        hit = None
+        for rel in sources:
+            try:
+                sf = extract.load_source(repo, rel)
+            except Exception:
+                continue
+            for it in sf.top:
+                if it.kind == "fn" and it.name == name:
+                    hit = "//@extract %s fn %s\n//@end\n" % (rel, name)
+                    break
+                if it.kind == "impl":
+                    for ch in sf.children(it):
+                        if ch.kind == "fn" and ch.name == name:
+                            hdr = sf.text[it.start:it.body_open].strip()
+                            hit = "%s {\n//@extract %s %s :: fn %s\n//@end\n}\n" % (hdr, rel, " ".join(hdr.split()), name)
+                            break
+                if hit:
+                    break
+            if hit:
+                break
+        if hit is None:
+            return None
+        add.append(hit)
+    marker = "} // verus!"
+    k = text.rfind(marker)
+    if k < 0:
+        return None
+    return text[:k] + "// ---- auto-extracted helpers (not listed in the template; no contract) ----\n" + "".join(add) + text[k:]
+
+
+def run_unit(unit_name, tier="quick", repo=None, workdir=None, rlimit_factor=1, _tpath=None, _round=0):
     """Extract + verify one unit (main and vacuity variants). Returns a result dict."""
     repo = repo or REPO
     res = {"unit": unit_name, "status": "ok", "failures": [], "undecided": [], "functions": [],
            "obligations": 0, "discharged": 0, "solver_ms": {}, "wall_s": 0.0, "rewrites": [], "dropped": [],
            "trusted": [], "vacuity_checked": 0, "cmd": "", "sources": []}
     t0 = time.time()
-    tpath = os.path.join(ROOT, "contracts", unit_name + ".vrs")
+    tpath = _tpath or os.path.join(ROOT, "contracts", unit_name + ".vrs")
     try:
         u = extract.process(tpath, repo, vacuity=False)
         uv = extract.process(tpath, repo, vacuity=True)
@@ -210,6 +248,44 @@ def run_unit(unit_name, tier="quick", repo=None, workdir=None, rlimit_factor=1):
         res["sources"] = sorted(u.sources)
         res["ghost_lint"] = u.ghost_lint
         _classify_main(res, u, m)
+        # auto-closure over helper functions the template does not know (refactorings that outline code)
+        if res["status"] == "undecided" and _round < 3:
+            missing = []
+            for d in m.get("diags", []):
+                mm = re.search(r"cannot find function `([A-Za-z_0-9]+)` in this scope", d.get("message", "")) or \
+                    re.search(r"no (?:method|function or associated item) named `([A-Za-z_0-9]+)` found", d.get("message", ""))
+                if mm and mm.group(1) not in missing:
+                    missing.append(mm.group(1))
+            if missing:
+                aug = _augment_template(tpath, repo, missing, sorted(u.sources))
+                if aug is not None:
+                    ap = os.path.join(workdir, "aug%d_%s.vrs" % (_round, unit_name))
+                    # keep it next to the real templates so relative includes/imports resolve
+                    ap = os.path.join(ROOT, "contracts", ".aug%d_%d_%s.vrs" % (os.getpid(), _round, unit_name))
+                    with open(ap, "w") as f:
+                        f.write(aug)
+                    try:
+                        r2 = run_unit(unit_name, tier, repo, None, rlimit_factor, _tpath=ap, _round=_round + 1)
+                    finally:
+                        try:
+                            os.remove(ap)
+                        except OSError:
+                            pass
+                    r2.setdefault("auto_extracted", [])
+                    r2["auto_extracted"] = missing + r2["auto_extracted"]
+                    # a helper without contract cannot be judged modularly: obligations that fail inside it are
+                    # "needs contract", not violations (the bounded driver decides whether a real input fails)
+                    keep = []
+                    for f in r2["failures"]:
+                        if (f.get("function") or "").split("::")[-1] in r2["auto_extracted"]:
+                            r2["undecided"].append("obligation %s at %s %s fails inside the new helper `%s`, which has no contract (auto-extracted)" % (
+                                f["kind"], f.get("where", ""), f.get("detail", ""), f.get("function")))
+                        else:
+                            keep.append(f)
+                    r2["failures"] = keep
+                    if r2["undecided"] and not keep:
+                        r2["status"] = "undecided"
+                    return r2
         if res["status"] == "undecided" and any("rlimit" in x for x in res["undecided"]) and rlimit_factor == 1:
             # retry once with 4x resource limit
             r2 = run_unit(unit_name, tier, repo, None, rlimit_factor=4)
